@@ -40,15 +40,15 @@ def _optional_rule(ctx, index):
         if isinstance(n, ast.Return) and isinstance(n.value, ast.Tuple) and len(n.value.elts) == 2 and isinstance(n.value.elts[1], ast.Name):
             ent = n.value.elts[1].id
     ctx.need(ent is not None, "column_call_to_param no longer returns (name, <entry local>)")
-    nested = [g for g in index.funcs.values() if g.outer is cc2p]
-    wrappers = {}
+    from ..core import RefGraph
+    from ..region import entry_views
+
+    views = entry_views(index, RefGraph(index), cc2p, ent)
     sites = []
-    for g in [cc2p] + nested:
+    for g, nm, chain in views:
         for n in iter_own(g.node):
-            if isinstance(n, ast.Assign) and norm(n.targets[0]) == "{}['typ']".format(ent) and "Optional[{" in norm(n.value):
-                sites.append((g, n))
-                if g is not cc2p:
-                    wrappers[g.node.name] = g
+            if isinstance(n, ast.Assign) and norm(n.targets[0]) == "{}['typ']".format(nm) and "Optional[{" in norm(n.value):
+                sites.append((g, nm, chain, n))
     ctx.need(sites, "the Optional-wrapping store vanished from column_call_to_param")
 
     def guards(f, node):
@@ -68,23 +68,30 @@ def _optional_rule(ctx, index):
 
     n_g = 0
     checked = []
-    for g, n in sites:
-        checked.append((g, n, guards(g, n)))
-    for name, g in wrappers.items():
-        for c in iter_own(cc2p.node):
-            if isinstance(c, ast.Call) and isinstance(c.func, ast.Name) and c.func.id == name:
-                checked.append((cc2p, c, guards(cc2p, c)))
+    for g, nm, chain, n in sites:
+        # the store's own guards, then those around every call on the way down from column_call_to_param — each read
+        # under the name the entry has in that function
+        name_in = {v_[0].qual: v_[1] for v_ in views}
+        gs = [(nm, t) for t in guards(g, n)]
+        for caller, call in chain:
+            gs += [(name_in.get(caller.qual, ent), t) for t in guards(caller, call)]
+        checked.append((g, n, gs))
+        # a nested wrapper (closure) is called from the root: the guards around those calls count too
+        if g.outer is cc2p:
+            for c in iter_own(cc2p.node):
+                if isinstance(c, ast.Call) and isinstance(c.func, ast.Name) and c.func.id == g.node.name:
+                    checked.append((cc2p, c, [(ent, t) for t in guards(cc2p, c)]))
     for f, node, gs in checked:
         bad = []
-        for t in gs:
+        for ent_, t in gs:
             n_g += 1
             for x in ast.walk(t):
                 key = None
-                if isinstance(x, ast.Subscript) and isinstance(x.value, ast.Name) and x.value.id == ent and isinstance(x.slice, ast.Constant):
+                if isinstance(x, ast.Subscript) and isinstance(x.value, ast.Name) and x.value.id == ent_ and isinstance(x.slice, ast.Constant):
                     key = x.slice.value
-                elif isinstance(x, ast.Call) and isinstance(x.func, ast.Attribute) and isinstance(x.func.value, ast.Name) and x.func.value.id == ent and x.func.attr in ("get", "pop") and x.args and isinstance(x.args[0], ast.Constant):
+                elif isinstance(x, ast.Call) and isinstance(x.func, ast.Attribute) and isinstance(x.func.value, ast.Name) and x.func.value.id == ent_ and x.func.attr in ("get", "pop") and x.args and isinstance(x.args[0], ast.Constant):
                     key = x.args[0].value
-                elif isinstance(x, ast.Compare) and len(x.ops) == 1 and isinstance(x.ops[0], (ast.In, ast.NotIn)) and norm(x.comparators[0]) == ent and isinstance(x.left, ast.Constant):
+                elif isinstance(x, ast.Compare) and len(x.ops) == 1 and isinstance(x.ops[0], (ast.In, ast.NotIn)) and norm(x.comparators[0]) == ent_ and isinstance(x.left, ast.Constant):
                     key = x.left.value
                 if key is not None and key not in ("nullable", "typ"):
                     bad.append(key)
@@ -197,16 +204,21 @@ def run(ctx):
             if isinstance(n, ast.Return) and isinstance(n.value, ast.Tuple) and len(n.value.elts) == 2 and isinstance(n.value.elts[1], ast.Name):
                 ent = n.value.elts[1].id
         ctx.need(ent is not None, "column_call_to_param no longer returns (name, <entry local>)")
+        from ..region import entry_views
+
+        # the entry is visible in column_call_to_param and in every private helper it is handed to
+        views = [(g_, nm_) for g_, nm_, _chain in entry_views(index, graph, cc2p, ent)]
         handled = set()
-        for n in iter_own(cc2p.node):
-            if isinstance(n, ast.Compare) and isinstance(n.ops[0], ast.In) and isinstance(n.left, ast.Constant) and norm(n.comparators[0]) == ent:
-                handled.add(n.left.value)
-            if isinstance(n, ast.Call) and isinstance(n.func, ast.Attribute) and n.func.attr in ("pop", "get") and norm(n.func.value) == ent and n.args and isinstance(n.args[0], ast.Constant):
-                handled.add(n.args[0].value)
-            if isinstance(n, ast.Tuple):
-                for e in n.elts:
-                    if isinstance(e, ast.Tuple) and len(e.elts) == 2 and isinstance(e.elts[1], ast.Constant):
-                        handled.add(e.elts[1].value)
+        for g_, nm_ in views:
+            for n in iter_own(g_.node):
+                if isinstance(n, ast.Compare) and isinstance(n.ops[0], (ast.In, ast.NotIn)) and isinstance(n.left, ast.Constant) and norm(n.comparators[0]) == nm_:
+                    handled.add(n.left.value)
+                if isinstance(n, ast.Call) and isinstance(n.func, ast.Attribute) and n.func.attr in ("pop", "get") and norm(n.func.value) == nm_ and n.args and isinstance(n.args[0], ast.Constant):
+                    handled.add(n.args[0].value)
+                if isinstance(n, ast.Tuple):
+                    for e in n.elts:
+                        if isinstance(e, ast.Tuple) and len(e.elts) == 2 and isinstance(e.elts[1], ast.Constant):
+                            handled.add(e.elts[1].value)
         # keys that ARE the interface vocabulary need no folding
         passthrough = {"doc", "default", "typ"}
         ctx.count("column_keywords_written", len(written))
@@ -217,18 +229,20 @@ def run(ctx):
                 continue
             # folded = read AND removed (popped / deleted) so that it does not stay as a stray key
             loop_longnames = set()
-            for n in iter_own(cc2p.node):
-                lv = n.target.elts[1].id if isinstance(n, ast.For) and isinstance(n.target, ast.Tuple) and len(n.target.elts) == 2 and isinstance(n.target.elts[1], ast.Name) else None
-                if lv is not None and any(isinstance(d, ast.Delete) and any(norm(t) == "{}[{}]".format(ent, lv) for t in d.targets) for b2 in n.body for d in ast.walk(b2)):
-                    from ..defuse import expand_aliases
+            for g_, nm_ in views:
+                for n in iter_own(g_.node):
+                    lv = n.target.elts[1].id if isinstance(n, ast.For) and isinstance(n.target, ast.Tuple) and len(n.target.elts) == 2 and isinstance(n.target.elts[1], ast.Name) else None
+                    if lv is not None and any(isinstance(d, ast.Delete) and any(norm(t) == "{}[{}]".format(nm_, lv) for t in d.targets) for b2 in n.body for d in ast.walk(b2)):
+                        from ..defuse import expand_aliases
 
-                    for e in ast.walk(expand_aliases(cc2p, n.iter)):
-                        if isinstance(e, ast.Tuple) and len(e.elts) == 2 and isinstance(e.elts[1], ast.Constant):
-                            loop_longnames.add(e.elts[1].value)
+                        for e in ast.walk(expand_aliases(g_, n.iter)):
+                            if isinstance(e, ast.Tuple) and len(e.elts) == 2 and isinstance(e.elts[1], ast.Constant):
+                                loop_longnames.add(e.elts[1].value)
             removed = k in loop_longnames or any(
-                (isinstance(n, ast.Call) and isinstance(n.func, ast.Attribute) and n.func.attr == "pop" and norm(n.func.value) == ent and n.args and isinstance(n.args[0], ast.Constant) and n.args[0].value == k)
-                or (isinstance(n, ast.Delete) and any(norm(t) == "{}[{!r}]".format(ent, k) for t in n.targets))
-                for n in iter_own(cc2p.node)
+                (isinstance(n, ast.Call) and isinstance(n.func, ast.Attribute) and n.func.attr == "pop" and norm(n.func.value) == nm_ and n.args and isinstance(n.args[0], ast.Constant) and n.args[0].value == k)
+                or (isinstance(n, ast.Delete) and any(norm(t) == "{}[{!r}]".format(nm_, k) for t in n.targets))
+                for g_, nm_ in views
+                for n in iter_own(g_.node)
             )
             ok = k in handled and removed
             ctx.ob(
@@ -425,15 +439,29 @@ def run(ctx):
                             stores.append(st_)
         ctx.need(len(stores) >= 2, "expected at least two primary-key stores in ensure_has_primary_key, found {}".format(len(stores)))
         absence = None
+        atexts = []
         for n in iter_own(ehp.node):
             if isinstance(n, ast.If) and "[PK]" in norm(n.test) and isinstance(n.test, ast.UnaryOp):
                 absence = n
+                atexts.append(norm(absence.test.operand))
+            # the loop spelling: `for p in params.values(): if <p has [PK]>: return ...` (GuardWalker records
+            # `any(<test> for <target> in <iter>)` as false past such a loop)
+            if (
+                isinstance(n, ast.For)
+                and not n.orelse
+                and len(n.body) == 1
+                and isinstance(n.body[0], ast.If)
+                and not n.body[0].orelse
+                and "[PK]" in norm(n.body[0].test)
+                and isinstance(n.body[0].body[-1], (ast.Return, ast.Raise))
+            ):
+                absence = absence or n
+                atexts.append("any({} for {} in {})".format(ast.unparse(n.body[0].test), ast.unparse(n.target), ast.unparse(n.iter)))
         ctx.need(absence is not None, "the `not any(... startswith('[PK]') ...)` absence test vanished")
-        atext = norm(absence.test.operand)
         arms = []
         for s in stores:
             facts = facts_at.get(id(s)) or {}
-            ok = facts.get(atext) is False
+            ok = any(facts.get(a_) is False for a_ in atexts)
             ctx.ob(
                 "C05.pk",
                 ehp,
@@ -451,12 +479,27 @@ def run(ctx):
                     chain.append((id(p), "body" if child in p.body else "orelse"))
                 child, p = p, ehp.mod.parents.get(p)
             arms[-1] = tuple(chain)
+        def leaves_before(s1, s2):
+            """s1 sits in an if-arm that always ends in return / raise and s2 lies outside that arm: s2 cannot follow s1"""
+            par = ehp.mod.parents
+            child, p = s1, par.get(s1)
+            while p is not None and p is not ehp.node:
+                if isinstance(p, ast.If):
+                    arm = p.body if child in p.body else p.orelse
+                    inside = any(s2 is y for st in arm for y in ast.walk(st))
+                    if arm and isinstance(arm[-1], (ast.Return, ast.Raise)) and not inside:
+                        return True
+                child, p = p, par.get(p)
+            return False
+
         exclusive = True
         for i in range(len(arms)):
             for j in range(i + 1, len(arms)):
                 a, b = dict(arms[i]), dict(arms[j])
                 if not any(k in b and b[k] != v for k, v in a.items()):
-                    exclusive = False
+                    first, second = sorted((stores[i], stores[j]), key=lambda x: x.lineno)
+                    if not leaves_before(first, second):
+                        exclusive = False
         ctx.ob("C05.pk", ehp, "the primary-key stores are in mutually exclusive arms", exclusive, "" if exclusive else "two primary-key stores can both execute", line=absence.lineno)
 
     ctx.section(_sec_pk)
